@@ -196,8 +196,8 @@ mod properties {
             match property(prop)? {
                 PropertyType::SubscriptionIdentifier => {
                     let (id_len, sub_id) = length(bytes.iter())?;
-                    // TODO: Validate 1 +. Tests are working either way
-                    cursor += 1 + id_len;
+                    // the identifier byte has been counted above
+                    cursor += id_len;
                     bytes.advance(id_len);
                     id = Some(sub_id)
                 }
